@@ -2,28 +2,44 @@ from vlib.core import Check, Family
 
 ARITH = ["LumpedConstituentRouting", "InstreamCoarseSediment", "InstreamParticulateNutrient",
          "StorageTrapAll", "StorageDissolvedDecay"]              # + - * / comparisons, math.Min/Max only → bit-exact
-TRANSC = ["ConstituentDecay", "InstreamFineSediment", "StorageParticulateTrapping"]   # math.Pow / math.Exp → 1e-9
+RATE = ["ConstituentDecay", "StorageParticulateTrapping"]        # math.Pow; outputs are rates, the state is a mass
+FINE = ["InstreamFineSediment"]                                  # math.Pow + math.Exp; two outputs are ratios
 
 CHECK = Check(
     "C12",
     props_modules=["OW.Props.C12"],
     families=[
         Family("K", rtol=None, label="K-exact", args=["models=" + ",".join(ARITH), "prop=C12", "n=200"]),
-        Family("K", rtol=1e-9, atol_scale=1e-12, label="K-pow", args=["models=" + ",".join(TRANSC), "prop=C12", "n=250"]),
+        # Go's math.Pow and libm's pow differ in the last bits. 1e-9 relative. Absolute floor: these two kernels end a
+        # step with `store = mass − released·Δt`, which is exactly 0 in ℝ when the storage is empty and round-off
+        # residue (≤ a few hundred ulp of the mass) in floating point; the line shows rates (mass/Δt, Δt ≤ 86400), so
+        # the residue is up to 1e-14·86400 ≈ 1e-9 of the largest rate. Floor 1e-8 × largest value on the line
+        # (60 000 thorough-size cases: 6 residue mismatches at 1e-12, none from 1e-10 upwards).
+        Family("K", rtol=1e-9, atol_scale=1e-8, label="K-pow-rate", args=["models=" + ",".join(RATE), "prop=C12", "n=200"]),
+        # Fine sediment: 1e-9 relative, floor 1e-12 × largest value (every line carries mass-valued outputs), on the
+        # well-conditioned generator (`finegen=conditioned`, see models_constituent.go: its ratio outputs
+        # deposition/mass-present are residue/residue when the mass present is pure round-off; 30 000 thorough-size
+        # cases without a mismatch). The unrestricted generator (zero-load spells, residue-level stores) is run below
+        # against the implementation for the oracle only.
+        Family("K", rtol=1e-9, atol_scale=1e-12, label="K-pow-fine",
+               args=["models=" + ",".join(FINE), "prop=C12", "n=250", "finegen=conditioned"]),
+        Family("K", compare=False, label="K-fine-oracle", args=["models=" + ",".join(FINE), "prop=C12", "n=150"]),
     ],
     level="proof",
     trusted=[
         "hand-written Lean kernel models OW/Kernels/{LumpedConstituent,ConstituentDecay,InstreamCoarseSediment,"
         "InstreamFineSediment,InstreamParticulateNutrient,StorageParticulateTrapping,StorageTrapAll,"
         "StorageDissolvedDecay}.lean, each tied to the real wrapper+kernel (sim.Catalog → Run on one cell) on every run: "
-        "bit-exact for the five arithmetic-only kernels, 1e-9 relative (1e-12 × largest value absolute) for the three "
-        "that call math.Pow/math.Exp (Go's and libm's pow/exp differ by a few ulp)",
+        "bit-exact for the five arithmetic-only kernels, 1e-9 relative for the three that call math.Pow/math.Exp "
+        "(Go's and libm's pow/exp differ by a few ulp; absolute floor 1e-8 × largest value for the two rate-valued "
+        "kernels, 1e-12 × largest value for fine sediment on the well-conditioned generator)",
         "theorems are over exact real arithmetic (Num ℝ instance); IEEE rounding, overflow and NaN propagation are "
         "covered by execution (correspondence + oracle) only",
         "ghost outputs `flushed`/`bedExchange`/`decayed` are part of the model's step record, not of the code's outputs; "
         "the oracle re-derives the in-stream store from the budget and the reported outputs instead",
-        "InstreamFineSediment is modelled AFTER fixes/fine-sediment-lumped-branch-local-mass.diff and "
-        "fixes/fine-sediment-floodplain-zero-excess.diff",
+        "InstreamFineSediment is modelled after the repairs fixes/fine-sediment-lumped-branch-local-mass.diff and "
+        "fixes/fine-sediment-floodplain-zero-excess.diff (committed to the repository as dd8662a, 91c4d57); the two "
+        "minimised pre-fix failing inputs are drawn first in every run",
     ],
     assumptions=[
         "budget theorems: no sign hypotheses; only Δt ≠ 0 where a rate is reported as mass/Δt (ConstituentDecay, "
